@@ -42,6 +42,10 @@ static void canon(qhashtbl_t *t, char *out) {
     *p = 0;
 }
 static void observe(qhashtbl_t *t, const model_t *m, const char *after) {
+    /* refused calls first, so that any effect they had is seen below */
+    for (int i = 0; i < U; i++) { errno = 0; if (t->put(t, KEYS[i], NULL, 3) || errno != EINVAL) vc_viol("map:einval", "after %s: put('%s', NULL data) not refused with EINVAL", after, KEYS[i]); errno = 0; if (t->putstr(t, KEYS[i], NULL) || errno != EINVAL) vc_viol("map:einval", "after %s: putstr('%s', NULL) not refused with EINVAL", after, KEYS[i]); }
+    errno = 0; if (t->put(t, NULL, "x", 1) || errno != EINVAL) vc_viol("map:einval", "put(NULL name) not refused with EINVAL");
+    errno = 0; if (t->remove(t, NULL) || errno != EINVAL) vc_viol("map:einval", "remove(NULL) not refused with EINVAL");
     if ((int)t->size(t) != m_count(m)) vc_viol("map:size", "after %s: size() = %zu, %d distinct keys stored", after, t->size(t), m_count(m));
     for (int i = 0; i < U; i++) {
         size_t kn = strlen(KEYS[i]) + 1;
